@@ -551,9 +551,120 @@ def rehome_stream(ctx, res, n):
                         dict(case, stored_under=os.path.basename(plain_under) if plain_under else None, expected=os.path.basename(want)))
 
 
+def history_stream(ctx, res):
+    """enumerated histories on one configuration object: (a) secrets next to non-empty typed lists of plain items, every format: the
+    document never holds the plaintext and loads back; (b) a load that fails while the key file is open (damaged ciphertext, unknown
+    method, wrong key), then the key file is replaced, then another save: a fresh configuration with the key file as it is now gets
+    the secret back (a key cached across the failure would encrypt under the key that is no longer on disk)"""
+    import base64
+    import cincoconfig as cc
+    tmp = ctx.tmpdir()
+    n = [0]
+
+    def newkey(content=None):
+        n[0] += 1
+        p = os.path.join(tmp, "h%d.key" % n[0])
+        with open(p, "wb") as fp:
+            fp.write(content if content is not None else os.urandom(32))
+        return p
+
+    def build(method):
+        s = cc.Schema()
+        s.secret = cc.SecureField(method=method)
+        s.names = cc.ListField(cc.StringField(), default=lambda: [])
+        s.nums = cc.ListField(cc.IntField(), default=lambda: [])
+        s.flags = cc.DictField(cc.StringField(), cc.BoolField(), default=lambda: {})
+        s.sub.token = cc.SecureField(method=method)
+        s.sub.tags = cc.ListField(cc.StringField(), default=lambda: [])
+        return s
+
+    def fill(cfg, tag):
+        cfg.secret = "plaintext-%s-root" % tag
+        cfg.sub.token = "plaintext-%s-sub" % tag
+        cfg.names = ["alice", "bob"]
+        cfg.nums = [1, 2, 3]
+        cfg.flags = {"x": True}
+        cfg.sub.tags = ["t1"]
+
+    def back(s, keypath, doc, fmt):
+        fresh = s(key_filename=keypath)
+        try:
+            fresh.loads(doc, format=fmt)
+            return [fresh.secret, fresh.sub.token, list(fresh.names), list(fresh.nums), dict(fresh.flags), list(fresh.sub.tags)]
+        except Exception as e:  # noqa
+            return "raised %s: %s" % (type(e).__name__, str(e)[:80])
+
+    for method in ("xor", "aes", "best"):
+        # (a)
+        s = build(method)
+        kp = newkey()
+        cfg = s(key_filename=kp)
+        fill(cfg, "a")
+        want = ["plaintext-a-root", "plaintext-a-sub", ["alice", "bob"], [1, 2, 3], {"x": True}, ["t1"]]
+        for fmt in FORMATS:
+            case = {"stream": "history", "history": "secrets-next-to-plain-typed-lists", "method": method, "fmt": fmt}
+            res.case(stable(case), kind="history:plain-lists")
+            try:
+                doc = cfg.dumps(format=fmt)
+            except Exception as e:  # noqa
+                res.violate("C03:dumps-raised", "dumps raised %s" % type(e).__name__, dict(case, error=str(e)[:200]))
+                continue
+            leaked = [p for p in ("plaintext-a-root", "plaintext-a-sub") if p.encode() in doc]
+            if leaked:
+                res.violate("C03:plaintext-in-document", "the plaintext of a secret occurs in the serialised document", dict(case, leaked=leaked))
+            got = back(s, kp, doc, fmt)
+            if got != want:
+                res.violate("C03:reload-differs", "loading the document with the same key file does not give the values back", dict(case, reloaded=got, want=want))
+        # (b)
+        for failure in ("damaged-ciphertext", "unknown-method", "truncated-block", "empty-ciphertext"):
+            for rotate in ("overwrite", "generate"):
+                s = build(method)
+                kp = newkey()
+                cfg = s(key_filename=kp)
+                fill(cfg, "b")
+                tree = cfg.to_tree()
+                bad = copy.deepcopy(tree)
+                ct = base64.b64decode(bad["secret"]["ciphertext"])
+                if failure == "damaged-ciphertext":
+                    bad["secret"]["ciphertext"] = base64.b64encode(ct[:-1] + bytes([ct[-1] ^ 0xff])).decode()
+                elif failure == "unknown-method":
+                    bad["secret"]["method"] = "rot13"
+                elif failure == "truncated-block":
+                    bad["secret"]["ciphertext"] = base64.b64encode(ct[:-3]).decode()
+                else:
+                    bad["secret"]["ciphertext"] = ""
+                try:
+                    cfg.load_tree(bad)
+                    failed = False
+                except Exception:  # noqa
+                    failed = True
+                fill(cfg, "b")
+                if rotate == "overwrite":
+                    with open(kp, "wb") as fp:
+                        fp.write(os.urandom(32))
+                else:
+                    from cincoconfig.encryption import KeyFile
+                    KeyFile(kp).generate_key()
+                case = {"stream": "history", "history": "failed-load-then-key-replaced-then-save", "failure": failure, "load_failed": failed, "rotate": rotate, "method": method}
+                res.case(stable(case), kind="history:failed-load-rotate:%s" % ("failed" if failed else "accepted"))
+                want = ["plaintext-b-root", "plaintext-b-sub", ["alice", "bob"], [1, 2, 3], {"x": True}, ["t1"]]
+                for fmt in ("json", "pickle"):
+                    try:
+                        doc = cfg.dumps(format=fmt)
+                    except Exception as e:  # noqa
+                        res.violate("C03:dumps-raised", "dumps raised %s" % type(e).__name__, dict(case, fmt=fmt, error=str(e)[:200]))
+                        continue
+                    got = back(s, kp, doc, fmt)
+                    if got != want:
+                        res.violate("C03:reload-differs:after-failed-load", "after a failed load and a replaced key file, a saved document does not load back with the key file as it is now",
+                                    dict(case, fmt=fmt, reloaded=got, want=want))
+                        break
+
+
 def run(ctx, n_quick=150, n_thorough=4000):
     res = Result()
     guard(res, "C03", rehome_stream, ctx, res, ctx.n(30, 800))
+    guard(res, "C03", history_stream, ctx, res)
     tmp, _ = P.setup(ctx)
     home = os.environ["HOME"]
     reqs, pend, sessions = [], [], []
